@@ -24,6 +24,7 @@ mod c16;
 mod c04;
 mod c04t;
 mod typed;
+mod streamraw;
 
 fn main() {
     let args: Vec<String> = std::env::args().collect();
@@ -51,6 +52,8 @@ fn main() {
             c01::run(&mut sink, prop, thorough, seed);
             #[cfg(feature = "rv")]
             c19::run(&mut sink, thorough, seed);
+            #[cfg(feature = "rv")]
+            streamraw::raw::run_c19(&mut sink, thorough, seed);
         }
         "C06" => c06::run(&mut sink, thorough, seed),
         "C10" => { c10::run(&mut sink, thorough, seed); typed::run_pfxs(&mut sink, thorough, seed); }
@@ -101,6 +104,7 @@ fn replay(sink: &mut common::Sink, toks: &[&str]) {
         "c16" => c16::replay(sink, toks),
         "rtv" | "rtt" => c04::replay(sink, toks),
         "tt" | "tt3" | "pfxs" | "rfaults" => typed::replay(sink, toks),
+        "rawser" | "rawnest" | "stream3" | "sdepth" | "spfx" | "raw3" => streamraw::replay(sink, toks),
         _ => eprintln!("cannot replay op {}", toks[0]),
     }
 }
